@@ -2,10 +2,10 @@ package rules
 
 import (
 	"fmt"
-	"os"
 	"go/ast"
 	"go/token"
 	"go/types"
+	"os"
 	"reflect"
 	"strings"
 
